@@ -272,7 +272,15 @@ func execSendHook(t *testing.T, sc *SendScenario, logger mlog.Logger, hook func(
 		}, env.Freeze
 	})
 	if run.Infra == "" && run.Res.BubbleErr != "" {
-		run.Infra = "bubble: " + run.Res.BubbleErr
+		if run.Res.Externals > 0 && strings.Contains(run.Res.BubbleErr, "blocked goroutines remain") {
+			// A task blocked for ever on something inside the library that is neither the
+			// simulated connection nor a lock (seen on broken trees: net/textproto's response
+			// sequencer). The call never returned; that is a verdict for the properties to draw,
+			// not harness trouble. The goroutine is leaked with its bubble.
+			run.Res.Verdict = sim.Quiescent
+		} else {
+			run.Infra = "bubble: " + run.Res.BubbleErr
+		}
 	}
 	return run
 }
